@@ -280,8 +280,33 @@ pub fn run(tier: &str) -> Result<Report, String> {
             }
         }
     }
+    // deterministic deep nests (8..12, 20, 40 quantifiers on one branch, every variable used innermost,
+    // jumps to the outermost / middle / innermost variable)
+    let mut deep_n = 0u64;
+    for d in [7usize, 8, 9, 10, 11, 12, 20, 40] {
+        for variant in 0..3 {
+            let mut q = String::new();
+            for i in 0..d {
+                let name = if variant == 1 { format!("{}", "x".repeat(d - i)) } else { format!("v{i}") };
+                q.push_str(&format!("{}{{{name}}}: ", ["!", "3", "V"][(i + variant) % 3]));
+            }
+            let name = |i: usize| if variant == 1 { "x".repeat(d - i) } else { format!("v{i}") };
+            let body: Vec<String> = (0..d).map(|i| format!("{{{}}}", name(i))).collect();
+            let s = format!("{q}(@{{{}}}: AX {{{}}}) & (@{{{}}}: {{{}}}) & {}", name(0), name(d - 1), name(d / 2), name(d - 2), body.join(" & "));
+            if let Ok(t) = crate::refparser::parse_str(&s, true) {
+                deep_n += 1;
+                rep.evaluations += 1;
+                if let Some(what) = check(&t, &ctx) {
+                    rep.violations.push(Violation { case: json!({"kind": "prep", "tree": t}), what: format!("deep nest of {d} quantifiers (variant {variant}): {what}"), size: 100 + d });
+                }
+            } else {
+                return Err(format!("harness: deep nest does not parse: {s}"));
+            }
+        }
+    }
+    rep.set("deep_nests", json!(deep_n));
     rep.sample(json!({"input": "(!{xx}: (3{x}: (@{xx}: {x})))", "expected_output": "(!{x}: (3{xx}: (@{x}: {xx})))"}));
     rep.sample(json!({"input": "(!{x}: (@{y}: a))", "expected": "Err (jump target y is free)"}));
-    rep.rule = format!("every tree with 1..{s_max} nodes over {} printed, parsed by the library and preprocessed against the extended symbolic context (2 spare variable sets) of a parametrised network with variables a,b: accepted iff the independent scope checker accepts; output must equal the tree renamed by nesting depth, be de-Bruijn-equal to the input, have #quantified names = nesting depth = collect_unique_hctl_vars, consistent stored text, and be a fixed point of preprocessing; then every tree with up to 8 (thorough 9) nodes over the binder-focused tiny alphabet {{a, x, y, AX, &, !, 3, @}}; plus {} longer hand-written shapes; plus every name of a symbolic variable of that context that is not a network variable (spare state variables, parameter variables) used as a proposition in 5 surroundings, as a tree and (where the syntax can spell it) as text: must be rejected; distinct_nontrivial = number of distinct accepted (well-scoped) trees", alpha.describe(), special.len());
+    rep.rule = format!("every tree with 1..{s_max} nodes over {} printed, parsed by the library and preprocessed against the extended symbolic context (2 spare variable sets) of a parametrised network with variables a,b: accepted iff the independent scope checker accepts; output must equal the tree renamed by nesting depth, be de-Bruijn-equal to the input, have #quantified names = nesting depth = collect_unique_hctl_vars, consistent stored text, and be a fixed point of preprocessing; then every tree with up to 8 (thorough 9) nodes over the binder-focused tiny alphabet {{a, x, y, AX, &, !, 3, @}}; plus {} longer hand-written shapes and 24 deep nests (7..12, 20, 40 quantifiers on one branch, fresh names / names equal to the internal ones in reverse order); plus every name of a symbolic variable of that context that is not a network variable (spare state variables, parameter variables) used as a proposition in 5 surroundings, as a tree and (where the syntax can spell it) as text: must be rejected; distinct_nontrivial = number of distinct accepted (well-scoped) trees", alpha.describe(), special.len());
     Ok(rep)
 }
